@@ -50,8 +50,7 @@ SHAPE_RESETS = T('SqTie.Shapes', 'resets_shape', advisory=True)
 PROPS = {
     'C01': dict(obligations=lambda: P('SqProps.C01') + T('SqTie.Consts', 'default_budget_tie') + SHAPE_OPS,
                 slices=['prog_budget'], monitors=['c01'],
-                pending=['aborted_prefix stated for two whole runs (follows from budget_mono + limit_is_fatal_without_try; not yet assembled)',
-                         'session_partial (per-call statement for closure-free histories)']),
+                pending=['session_partial (per-call statement for closure-free histories)', 'prefix clause for hosts that swallow the limit error (try_apply) is not claimed by the property']),
     'C02': dict(obligations=lambda: P('SqProps.C02') + TIE_FN + TIE_IMP + TIE_GRAM,
                 slices=['builtin_args'], monitors=['c02'],
                 pending=['plain_step_partial (CfgPlain invariant of the machine step)', 'plain_builtin for every FUNCTIONS entry']),
